@@ -368,6 +368,18 @@ func rulePersisterLoopAck(r *Report, rule string) {
 	if nclose == 0 {
 		r.Ob(rule, fi.Name+"/waiters-released-after-persist", fi.Decl.Pos(), false, "no close() over the taken waiters found")
 	}
+	// the taken callbacks may be handed on to another local (`ours := taken`) before they are used
+	cbVars := map[types.Object]bool{callbacks: true}
+	ast.Inspect(fi.Decl.Body, func(n ast.Node) bool {
+		if as, ok := n.(*ast.AssignStmt); ok && as.Tok == token.DEFINE && len(as.Lhs) == 1 && len(as.Rhs) == 1 {
+			if src := objOf(info, as.Rhs[0]); src != nil && cbVars[src] {
+				if dst := objOf(info, as.Lhs[0]); dst != nil {
+					cbVars[dst] = true
+				}
+			}
+		}
+		return true
+	})
 	// callbacks invoked only on success, after persist
 	ncb := 0
 	ast.Inspect(fi.Decl.Body, func(n ast.Node) bool {
@@ -376,7 +388,7 @@ func rulePersisterLoopAck(r *Report, rule string) {
 			return true
 		}
 		ix, ok := ast.Unparen(c.Fun).(*ast.IndexExpr)
-		if !ok || objOf(info, ix.X) != callbacks {
+		if !ok || !cbVars[objOf(info, ix.X)] {
 			return true
 		}
 		ncb++
@@ -406,11 +418,11 @@ func rulePersisterLoopAck(r *Report, rule string) {
 		}
 		uses := false
 		for _, a := range c.Args[1:] {
-			if objOf(info, a) == callbacks {
+			if cbVars[objOf(info, a)] {
 				uses = true
 			}
 		}
-		if !uses || objOf(info, as.Lhs[0]) == callbacks {
+		if !uses || cbVars[objOf(info, as.Lhs[0])] {
 			return true
 		}
 		for _, f := range g.GuardsOf(as) {
